@@ -1376,15 +1376,6 @@ func equal(a, b Object) (bool, error) {
 func (intp *Interpreter) bindProc(proc Procedure) {
 	for i, elem := range proc {
 		switch obj := elem.(type) {
-		case Name:
-			val, err := intp.load(obj)
-			if err != nil {
-				continue
-			}
-			_, ok := val.(builtin)
-			if ok {
-				proc[i] = val
-			}
 		case Operator:
 			val, err := intp.load(obj)
 			if err != nil {
